@@ -89,12 +89,12 @@ Definition create_outside_class (nc : bool) (class_path : str) (st : fsys * list
         let py := join (K".") path_parts in
         let cc := convert nc false py in
         Ok (fs_write file ((if str_eqb py cc then [] else K"@PythonModule(""" ++ py ++ K""")" ++ NL) ++
-                           K"package " ++ cc ++ NL ++ outside_class_text nc class_name) fs, created')
+                           K"package " ++ escape_path cc ++ NL ++ outside_class_text nc class_name) fs, created')
     | None =>
       let py := join (K".") path_parts in
       let cc := convert nc false py in
       Ok (fs_write file ((if str_eqb py cc then [] else K"@PythonModule(""" ++ py ++ K""")" ++ NL) ++
-                         K"package " ++ cc ++ NL ++ outside_class_text nc class_name) fs, created')
+                         K"package " ++ escape_path cc ++ NL ++ outside_class_text nc class_name) fs, created')
     end
   end.
 
